@@ -257,8 +257,11 @@ def run_F(chk):
                             ("yastn.tensor._single", "diag", ["mf != (1,)", "hf.tree != (1,)"])):
         f = prog.func(mod, name)
         ifs = [n for n in A.walk_local(f.node) if isinstance(n, ast.If) and any(isinstance(b_, ast.Raise) for b_ in n.body)]
+        import re as _re
         for fr in frag:
-            hit = [n for n in ifs if fr in A.text(n.test)]
+            # the index variable may be named differently (e.g. after a helper was inlined): `b.mfs[ax] != (1,)` matches `b.mfs[<name>] != (1,)`
+            pat = _re.escape(fr).replace(r"\[ax\]", r"\[\w+\]")
+            hit = [n for n in ifs if _re.search(pat, A.text(n.test))]
             chk.verdict("F1", (f, hit[0] if hit else f.node), f"{name}: rejects `{fr}`", True if hit else False,
                         f"{name}(): legs that are fused (`{fr}`) are no longer rejected although the operation does not support them")
     uf = prog.func(MRG, "unfuse_legs")
